@@ -196,6 +196,21 @@ struct static_array  // NOLINT(fuchsia-multiple-inheritance) : multiple inherita
 		this->base_ = array_alloc::allocate(static_cast<typename multi::allocator_traits<typename static_array::allocator_type>::size_type>(this->static_array::num_elements()));
 	}
 
+	// constructors obtain the storage in their member initializers; if the construction of the elements
+	// throws, the destructor will not run: return the storage here (the elements constructed so far
+	// have already been destroyed by the uninitialized_* algorithm)
+	template<class ConstructElements>
+	void construct_or_release_(ConstructElements&& construct_elements) {
+		try {
+			std::forward<ConstructElements>(construct_elements)();
+		} catch(...) {
+			if(this->num_elements()) {
+				multi::allocator_traits<allocator_type>::deallocate(this->alloc(), this->base_, static_cast<typename multi::allocator_traits<allocator_type>::size_type>(this->num_elements()));
+			}
+			throw;
+		}
+	}
+
  public:
 	using value_type = typename std::conditional_t<
 		(D > 1),  // this parenthesis is needed
@@ -263,7 +278,7 @@ struct static_array  // NOLINT(fuchsia-multiple-inheritance) : multiple inherita
 		}
 		adl_copy_n(first, last - first, ref::begin());
 	#else
-		adl_alloc_uninitialized_copy(static_array::alloc(), first, last, ref::begin());
+		construct_or_release_([&] { adl_alloc_uninitialized_copy(static_array::alloc(), first, last, ref::begin()); });
 	#endif
 	}
 
@@ -295,7 +310,7 @@ struct static_array  // NOLINT(fuchsia-multiple-inheritance) : multiple inherita
 		}
 		adl_copy_n(other.data_elements(), other.num_elements(), this->data_elements());
 	#else
-		adl_alloc_uninitialized_copy_n(static_array::alloc(), other.data_elements(), other.num_elements(), this->data_elements());
+		construct_or_release_([&] { adl_alloc_uninitialized_copy_n(static_array::alloc(), other.data_elements(), other.num_elements(), this->data_elements()); });
 	#endif
 	}
 
@@ -311,7 +326,7 @@ struct static_array  // NOLINT(fuchsia-multiple-inheritance) : multiple inherita
 
 	static_array(typename static_array::extensions_type extensions, typename static_array::element_type const& elem, allocator_type const& alloc)  // 2
 	: array_alloc{alloc}, ref{array_alloc::allocate(static_cast<typename multi::allocator_traits<allocator_type>::size_type>(typename static_array::layout_t{extensions}.num_elements()), nullptr), extensions} {
-		array_alloc::uninitialized_fill_n(this->data_elements(), static_cast<typename multi::allocator_traits<allocator_type>::size_type>(this->num_elements()), elem);
+		construct_or_release_([&] { array_alloc::uninitialized_fill_n(this->data_elements(), static_cast<typename multi::allocator_traits<allocator_type>::size_type>(this->num_elements()), elem); });
 	}
 
 	// template<class... Exts, class... Ts>
@@ -339,7 +354,7 @@ struct static_array  // NOLINT(fuchsia-multiple-inheritance) : multiple inherita
 		)
 	) {
 		if constexpr(! std::is_trivially_default_constructible_v<typename static_array::element_type>) {
-			array_alloc::uninitialized_fill_n(this->base(), static_cast<typename multi::allocator_traits<allocator_type>::size_type>(this->num_elements()), elem);
+			construct_or_release_([&] { array_alloc::uninitialized_fill_n(this->base(), static_cast<typename multi::allocator_traits<allocator_type>::size_type>(this->num_elements()), elem); });
 		} else {  // this workaround allows constexpr arrays for simple types
 		                           adl_fill_n(this->base(), static_cast<typename multi::allocator_traits<allocator_type>::size_type>(this->num_elements()), elem);
 		}
@@ -361,7 +376,7 @@ struct static_array  // NOLINT(fuchsia-multiple-inheritance) : multiple inherita
 
 	constexpr explicit static_array(typename static_array::extensions_type extensions, allocator_type const& alloc)
 	: array_alloc{alloc}, ref(array_alloc::allocate(static_cast<typename multi::allocator_traits<allocator_type>::size_type>(typename static_array::layout_t{extensions}.num_elements())), extensions) {
-		uninitialized_default_construct();
+		construct_or_release_([&] { uninitialized_default_construct(); });
 		assert(this->stride() != 0);
 	}
 
@@ -383,7 +398,7 @@ struct static_array  // NOLINT(fuchsia-multiple-inheritance) : multiple inherita
 		// }
 		// adl_copy_n                    (                       other.elements().begin(), this->num_elements(), this->data_elements());
 		// #else
-		adl_alloc_uninitialized_copy_n(static_array::alloc(), other.elements().begin(), this->num_elements(), this->data_elements());
+		construct_or_release_([&] { adl_alloc_uninitialized_copy_n(static_array::alloc(), other.elements().begin(), this->num_elements(), this->data_elements()); });
 		// #endif
 	}
 
@@ -396,7 +411,7 @@ struct static_array  // NOLINT(fuchsia-multiple-inheritance) : multiple inherita
 		  array_alloc::allocate(static_cast<typename multi::allocator_traits<allocator_type>::size_type>(typename static_array::layout_t{other.extensions()}.num_elements())),
 		  other.extensions()
 	  ) {
-		adl_alloc_uninitialized_copy_n(static_array::alloc(), std::move(other).elements().begin(), this->num_elements(), this->data_elements());
+		construct_or_release_([&] { adl_alloc_uninitialized_copy_n(static_array::alloc(), std::move(other).elements().begin(), this->num_elements(), this->data_elements()); });
 	}
 
 	template<
@@ -439,7 +454,7 @@ struct static_array  // NOLINT(fuchsia-multiple-inheritance) : multiple inherita
 	// cppcheck-suppress noExplicitConstructor ; to allow terse syntax
 	/*mplct*/ static_array(array_ref<TT, D, Args...>& other)  // NOLINT(google-explicit-constructor,hicpp-explicit-conversions)  // NOSONAR
 	: array_alloc{}, ref{array_alloc::allocate(static_cast<typename multi::allocator_traits<allocator_type>::size_type>(other.num_elements())), other.extensions()} {
-		static_array::uninitialized_copy_elements(other.data_elements());
+		construct_or_release_([&] { static_array::uninitialized_copy_elements(other.data_elements()); });
 	}
 
 	template<class TT, class... Args,
@@ -447,7 +462,7 @@ struct static_array  // NOLINT(fuchsia-multiple-inheritance) : multiple inherita
 	explicit static_array(array_ref<TT, D, Args...>& other)  // NOLINT(fuchsia-default-arguments-declarations)
 	: array_alloc{}, ref{array_alloc::allocate(static_cast<typename multi::allocator_traits<allocator_type>::size_type>(other.num_elements())), other.extensions()} {
 		assert(this->stride() != 0);
-		static_array::uninitialized_copy_elements(other.data_elements());
+		construct_or_release_([&] { static_array::uninitialized_copy_elements(other.data_elements()); });
 	}
 
 	template<class TT, class... Args,
@@ -456,7 +471,7 @@ struct static_array  // NOLINT(fuchsia-multiple-inheritance) : multiple inherita
 	/*mplct*/ static_array(array_ref<TT, D, Args...>&& other)  // NOLINT(google-explicit-constructor,hicpp-explicit-conversions)  // NOSONAR
 	: array_alloc{}, ref{array_alloc::allocate(static_cast<typename multi::allocator_traits<allocator_type>::size_type>(other.num_elements())), other.extensions()} {
 		assert(this->stride() != 0);
-		static_array::uninitialized_copy_elements(std::move(other).data_elements());
+		construct_or_release_([&] { static_array::uninitialized_copy_elements(std::move(other).data_elements()); });
 	}
 
 	template<class TT, class... Args,
@@ -464,7 +479,7 @@ struct static_array  // NOLINT(fuchsia-multiple-inheritance) : multiple inherita
 	explicit static_array(array_ref<TT, D, Args...>&& other)  // NOLINT(fuchsia-default-arguments-declarations)
 	: array_alloc{}, ref{array_alloc::allocate(static_cast<typename multi::allocator_traits<allocator_type>::size_type>(other.num_elements())), other.extensions()} {
 		assert(this->stride() != 0);
-		static_array::uninitialized_copy_elements(std::move(other).data_elements());
+		construct_or_release_([&] { static_array::uninitialized_copy_elements(std::move(other).data_elements()); });
 	}
 
 	template<class TT, class... Args,
@@ -473,7 +488,7 @@ struct static_array  // NOLINT(fuchsia-multiple-inheritance) : multiple inherita
 	/*mplct*/ static_array(array_ref<TT, D, Args...> const& other)  // NOLINT(google-explicit-constructor,hicpp-explicit-conversions)  // NOSONAR
 	: array_alloc{}, ref{array_alloc::allocate(static_cast<typename multi::allocator_traits<allocator_type>::size_type>(other.num_elements())), other.extensions()} {
 		assert(this->stride() != 0);
-		static_array::uninitialized_copy_elements(other.data_elements());
+		construct_or_release_([&] { static_array::uninitialized_copy_elements(other.data_elements()); });
 	}
 
 	template<class TT, class... Args,
@@ -486,7 +501,7 @@ struct static_array  // NOLINT(fuchsia-multiple-inheritance) : multiple inherita
 		other.extensions()
 	) {
 		assert(this->stride() != 0);
-		static_array::uninitialized_copy_elements(std::move(other).data_elements());
+		construct_or_release_([&] { static_array::uninitialized_copy_elements(std::move(other).data_elements()); });
 	}
 
 	static_array(static_array const& other)  // 5b
@@ -503,7 +518,7 @@ struct static_array  // NOLINT(fuchsia-multiple-inheritance) : multiple inherita
 		}
 	{
 		assert(this->stride() != 0);
-		uninitialized_copy_elements(other.data_elements());
+		construct_or_release_([&] { uninitialized_copy_elements(other.data_elements()); });
 	}
 
 	template<class ExecutionPolicy, std::enable_if_t<!std::is_convertible_v<ExecutionPolicy, typename static_array::extensions_type>, int> =0>  // NOLINT(modernize-use-constraints) TODO(correaa)
